@@ -65,4 +65,12 @@ theorem id_generator_atomic :
     Gen.stmts_GetRequestIDGen = ["var id uint32", "return func() uint32 { return atomic.AddUint32(&id, 1) }"] := by
   decide
 
+
+/-- T2 structure fact: the recovery fails the in-flight waiters (closes their channels) under the EXCLUSIVE waiter lock — the dispatcher
+hands responses over under the shared one, so a close under the shared lock would race with a send on the same channel -/
+theorem failall_exclusive :
+    Gen.seq_client_reconnect = ["c.stateMu.Lock", "c.stateMu.Unlock", "c.stateMu.Unlock", "c.RLock", "c.RUnlock", "old.Close", "c.recvsMu.Lock", "close:w.ch", "c.recvsMu.Unlock", "c.dial", "c.stateMu.Lock", "c.stateMu.Unlock", "c.isAuthExpired", "c.auth", "c.reconnectDial"] ∧
+    Gen.seq_client_handleResponse = ["c.recvsMu.RLock", "defer:c.recvsMu.RUnlock", "select", "send:w.ch", "default"] := by
+  decide
+
 end OAP.C17
